@@ -15,6 +15,7 @@ from harness import core
 from harness.core import enc_str, enc_val
 
 KEYS = ["a", "b", "C", "k", "f", "name", "id", "Parm", "Value", "w"]
+CASELESS_TWINS = [("Maße", "Masse"), ("ſ", "s"), ("ς", "σ"), ("ﬁ", "fi")]  # all invariant under str.lower()
 SETTERS = ["types", "delta", "equal", "records", "elements", "place"]
 STR_LEAVES = ["a", "A", "b", "x y", "1", "2", "1.0", "None", "True", "é", "it's", 'q"', "[1]", "", "Ab", "aB", "10"]
 INT_LEAVES = [0, 1, -1, 2, 7, 10, 255, -12, 12345678901234567890]
@@ -461,6 +462,10 @@ def gen_tree(rng, depth, collide=True, root=None):
     if kind == "d":
         n = rng.choice([0, 1, 2, 2, 3, 4])
         ks = rng.sample(KEYS, n)
+        if rng.random() < 0.06:
+            # two different keys that only a too generous caseless comparison (casefold, NFKC) identifies
+            ks = list(rng.choice(CASELESS_TWINS)) + ks[:2]
+            rng.shuffle(ks)
         return {k: gen_node(rng, depth - 1, collide) for k in ks}
     return gen_list(rng, depth, collide)
 
@@ -616,7 +621,8 @@ def key_paths(t, prefix=""):
 
 
 def mixcase(rng, s):
-    return "".join(c.upper() if rng.random() < 0.5 else c.lower() for c in s)
+    # ASCII letters only: the models' lower() is ASCII ('ß'.upper() is 'SS', 'ς'.upper().lower() is 'σ')
+    return "".join((c.upper() if rng.random() < 0.5 else c.lower()) if c.isascii() else c for c in s)
 
 
 def gen_pattern(rng, a, b):
